@@ -253,7 +253,7 @@ func init() {
 			}
 		}})
 
-	register(&Rule{ID: "C12.backed", Props: []string{"C12", "C13"}, Floor: 6,
+	register(&Rule{ID: "C12.backed", Props: []string{"C12", "C13", "C01", "C11"}, Floor: 6,
 		Doc: "index increments are backed by the coins forwarded to the rewards pool; forwarded coins are exactly what distribution paid for that validator",
 		Run: func(e *Engine, r *RuleRun) {
 			if fn := r.Need("keeper.Keeper.AddAssetsToRewardPool"); fn != nil {
@@ -270,6 +270,13 @@ func init() {
 						r.Check(moduleName(argT(fa, send, 2)) == "alliance_rewards", fk, "recipient is the rewards pool", "alliance_rewards", "coins are forwarded to "+argT(fa, send, 2).String(), r.P(send))
 						r.Check(argT(fa, send, 3).Op == "param" && argT(fa, send, 3).Name == "coins", fk, "coins forwarded == coins indexed", "the coins parameter is sent unchanged", "the coins forwarded ("+argT(fa, send, 3).String()+") are not the coins parameter the indices were computed from", r.P(send))
 						r.Check(argT(fa, send, 1).Op == "param", fk, "sender is the from parameter", "from", "sender is "+argT(fa, send, 1).String(), r.P(send))
+					}
+					// whatever was withdrawn into `from` leaves it again: no success exit without a forward (coins that stay in
+					// the alliance module account are counted as custody, and staking-denom coins there are burnt by the sweep)
+					if trail := fa.EntryMustPass(callsAsInstrs(sends)); trail != nil {
+						r.Bad(fk, "every success path forwards the coins", "AddAssetsToRewardPool can return success without moving the coins out of the sender account: rewards that ClaimValidatorRewards withdrew into the alliance module account stay there (custody exceeds what is owed; staking-denom coins are burnt by the next end-of-block sweep)", trail, e.Pos(fn.Pos()))
+					} else {
+						r.OK(fk, "every success path forwards the coins", "every success exit passes a transfer to the rewards pool", e.Pos(fn.Pos()))
 					}
 					if trail := fa.MustFollow(sv, callsAsInstrs(sends)); trail != nil {
 						r.Bad(fk, "indices persisted => coins forwarded", "a success path persists increased reward indices without moving the coins into the rewards pool (entitlements exceed the pool)", trail, r.P(sv))
